@@ -216,6 +216,10 @@ class Program:
         self.parse_errors: list[str] = []
         self._load()
         self._link()
+        self.private_renames: list[str] = []
+        self._aliases: dict[str, str] = {}
+        if normalise:
+            self._recognise_private_renames()
         if normalise:
             from .inline import _logger_names, normalise_null_contexts, normalise_accumulate, normalise_isinstance_unions, normalise_comprehension_fusion, normalise_search_loops, normalise_try_lookups, normalise_display_loops, normalise_setdefault_statements, normalise_unused_enumerate, normalise_enumerated_dicts, normalise_get_locals, normalise_dims_copies, normalise_conditional_elements, normalise_local_generators, normalise_subset_quantifiers, normalise_next_or_raise, normalise_partials, normalise_getters, normalise_comprehension_negations, normalise_display_comprehensions, normalise_quantifier_polarity, normalise_expression_walrus, normalise_get_tests, normalise_starred_maps, normalise_self_aliases, normalise_for_else, normalise_numpy_idioms, normalise_self_conditional, normalise_walrus, normalise_match, normalise_dict_union, normalise_first_match, normalise_generator_functions, normalise_unzip_loops, normalise_accumulators, normalise_conditional_assignments, normalise_generator_arguments, normalise_ifexp, normalise_keys, normalise_suppress, strip_logging
             loggers = {m.name: _logger_names(m.tree, m.resolve) for m in self.modules.values()}
@@ -301,6 +305,32 @@ class Program:
                     self._count('normalise_test_locals', normalise_test_locals(fi.node))
                     self._count('normalise_conditional_returns', normalise_conditional_returns(fi.node))
                     self._count('normalise_unchanged_returns', normalise_unchanged_returns(fi.node))
+
+    def _recognise_private_renames(self) -> None:
+        """Private helpers that the reviewed tree knew under another name, or in another module, are read as the reviewed tree knew them
+        (emsverif/renames.py): the new spelling is renamed back throughout the package and the program is indexed again."""
+        from . import renames as _renames
+        details = _renames.load_details()
+        if details is None:
+            return
+        renamed, moved = _renames.detect(self, details)
+        if renamed:
+            _renames.apply_renames(self, renamed)
+            for mod in self.modules.values():
+                mod.imports.clear()
+                mod.functions.clear()
+                mod.classes.clear()
+                mod.assigns.clear()
+            self.functions.clear()
+            self.classes.clear()
+            for mod in self.modules.values():
+                self._index_module(mod)
+            self._link()
+            self.private_renames += [f"{new} read as {old}" for new, old in sorted(renamed.items())]
+        for old_q, new_q in sorted(moved.items()):
+            self._aliases[old_q] = new_q
+            self.private_renames.append(f"{old_q} found at {new_q}")
+        self.private_renames += _renames.normalise_import_style(self, details.get('__imports__', {}))
 
     def _enum_constant(self, mod: 'Module', cls_name: str, member: str):
         """The constant an enumeration member is defined as (`left = 'left'`), None when the name is not an enumeration of the program."""
@@ -461,6 +491,8 @@ class Program:
         q = self.canonical(qualname)
         if q in self.functions:
             return self.functions[q]
+        if q in self._aliases and self._aliases[q] in self.functions:
+            return self.functions[self._aliases[q]]       # a private helper that moved to another module
         # method looked up through the MRO
         clsname, _, meth = q.rpartition('.')
         clsname = self.canonical(clsname)
